@@ -119,14 +119,25 @@ def asBodySpec (j : Json) : R BodySpec := do
   let s ← match optFld j "subline_by" with | some v => some <$> asCols v | none => pure none
   return { groupBy := g, pageBy := p, sublineBy := s }
 
+/-- `df`: `{"single": cols, "rows": n}` or `{"multi": [cols, …], "rows": [n, …]}` (`rows` optional: 3 each) -/
+def asDfData (j : Json) : R DfData := do
+  match optFld j "df" with
+  | none => pure DfData.none
+  | some d =>
+    match optFld d "single", optFld d "multi" with
+    | some c, _ => do
+      let n ← match optFld d "rows" with | some v => asNat v | none => pure 3
+      return DfData.single { cols := ← asCols c, nrows := n }
+    | _, some m => do
+      let cs ← asList asCols m
+      let ns ← match optFld d "rows" with | some v => asList asNat v | none => pure (cs.map fun _ => 3)
+      if ns.length != cs.length then throw "df: rows must have one entry per section"
+      return DfData.multi ((cs.zip ns).map fun p => { cols := p.1, nrows := p.2 })
+    | _, _ => throw "df: expected single|multi"
+
+/-- everything but `df` (which `validateDocData` / `specDocData` take from the frames) -/
 def asDocArgs (j : Json) : R DocArgs := do
-  let df ← match optFld j "df" with
-    | none => pure DfArg.none
-    | some d =>
-      match optFld d "single", optFld d "multi" with
-      | some c, _ => DfArg.single <$> asCols c
-      | _, some m => DfArg.multi <$> asList asCols m
-      | _, _ => throw "df: expected single|multi"
+  let df := DfArg.none
   let body ← match optFld j "body" with
     | none => pure BodyArg.none
     | some b =>
@@ -183,14 +194,15 @@ def seqVerdict : List Verdict → Verdict → Verdict
 def opC19Doc (j : Json) : R Json := do
   let comps ← match optFld j "comps" with | some cs => asList asCompCase cs | none => pure []
   let a ← asDocArgs j
+  let d ← asDfData j
   let rs := comps.map fun c => constructComp c.comp c.kw c.ex
   let vs := comps.map fun c => specComp c.comp c.kw c.ex
   let firstErr := rs.find? (fun r => match r with | .error _ => true | .ok _ => false)
   let (m, stage) := match firstErr with
     | some r => (r, "component")
-    | none => (validateDoc a, "document")
+    | none => (validateDocData d a, "document")
   let out := constructThenEncode m (fun _ => (Except.ok () : Except Err Unit))
-  return Json.mkObj [("model", Json.str (resName out)), ("spec", Json.str (verdictName (seqVerdict vs (specDoc a)))),
+  return Json.mkObj [("model", Json.str (resName out)), ("spec", Json.str (verdictName (seqVerdict vs (specDocData d a)))),
                      ("stage", Json.str stage)]
 
 def jVal : Val → Json
